@@ -344,13 +344,32 @@ def semi_singleton_metaclass(hashfunc: Callable | None = None) -> type:
 
         def __call__(cls, *args, **kwargs):
             key = hashfunc(args, kwargs)
-            if key not in cls._SemiSingleton__semisingleton_instance_map:
-                cls._SemiSingleton__semisingleton_instance_map[key] = super(
-                    _SemiSingleton, cls
-                ).__call__(*args, **kwargs)
-            return cls._SemiSingleton__semisingleton_instance_map[key]
+            instances = _instance_map(cls)
+            if key not in instances:
+                instances[key] = super(_SemiSingleton, cls).__call__(
+                    *args, **kwargs
+                )
+            return instances[key]
 
     return _SemiSingleton
+
+
+def _instance_map(cls: type) -> dict:
+    """
+    Get the mapping of keys to instances belonging to one semi-singleton class.
+
+    **FOR INTERNAL USE ONLY!!**
+
+    The metaclass holds one such mapping per class using it, so that classes
+    sharing a metaclass (subclasses of a semi-singleton, for example) never
+    see each other's instances.
+
+    :param cls: The semi-singleton class (not its metaclass).
+    :return: The (mutable) dictionary of keys to instances of that class.
+    """
+    # see the note at the top of the file regarding the type-checker silencing
+    maps = type(cls)._SemiSingleton__semisingleton_instance_map  # type: ignore
+    return maps.setdefault(cls, {})
 
 
 def add_mapping(obj: object, *args, **kwargs):
@@ -400,8 +419,9 @@ def add_mapping(obj: object, *args, **kwargs):
     hashfunc = cls._SemiSingleton__semisingleton_hashfunc  # type: ignore
     hashid = hashfunc(args, kwargs)
 
-    # store the hashed identifier in the metaclass map of hashes to instances
-    cls._SemiSingleton__semisingleton_instance_map[hashid] = obj  # type: ignore
+    # store the hashed identifier in the object's class map of hashes to
+    # instances
+    _instance_map(type(obj))[hashid] = obj
 
 
 def drop_semi_singleton_mapping(cls: type, *args, **kwargs):
@@ -452,7 +472,7 @@ def drop_semi_singleton_mapping(cls: type, *args, **kwargs):
     hashfunc = mcls._SemiSingleton__semisingleton_hashfunc  # type: ignore
     hashid = hashfunc(args, kwargs)
 
-    del mcls._SemiSingleton__semisingleton_instance_map[hashid]
+    del _instance_map(cls)[hashid]
 
 
 def check_semi_singleton_entry_exists(cls: type, *args, **kwargs) -> object:
@@ -497,8 +517,9 @@ def check_semi_singleton_entry_exists(cls: type, *args, **kwargs) -> object:
     hashfunc = mcls._SemiSingleton__semisingleton_hashfunc  # type: ignore
     hashid = hashfunc(args, kwargs)
 
-    if hashid in mcls._SemiSingleton__semisingleton_instance_map:  # type: ignore
-        return mcls._SemiSingleton__semisingleton_instance_map[hashid]  # type: ignore
+    instances = _instance_map(cls)
+    if hashid in instances:
+        return instances[hashid]
 
     return None
 
@@ -533,7 +554,7 @@ def get_all_semi_singleton_instances(cls: type) -> Generator[object]:
     :param cls: Data type to check singleton instances for.
     :return: Generator expression yielding semi-singleton instances.
     """
-    yield from type(cls)._SemiSingleton__semisingleton_instance_map.values()  # type: ignore
+    yield from _instance_map(cls).values()
 
 
 def clear_semi_singleton(cls: type) -> None:
@@ -568,4 +589,4 @@ def clear_semi_singleton(cls: type) -> None:
 
     :param cls: Class to clear semisingleton states from.
     """
-    type(cls)._SemiSingleton__semisingleton_instance_map = {}  # type: ignore
+    _instance_map(cls).clear()
